@@ -62,6 +62,12 @@ fn baseline(files: &[String], pats: &[P]) -> Result<Vec<Vec<BTreeSet<i32>>>, Str
     Ok(b)
 }
 
+/// The files of a pool on which no detector panics (a panic is C04's business; here it would only
+/// leave a phase without a baseline).
+fn without_panicking_files(files: Vec<String>, pats: &[P]) -> Vec<String> {
+    files.into_iter().filter(|f| pats.iter().all(|p| catch(|| p.analyze(f, 0)).is_ok())).collect()
+}
+
 fn seeded_pool(seed: u64) -> Vec<String> {
     let bytes: Vec<u8> = (0..400u64).map(|i| (fnv(&(seed, 31u8, i)) >> 9) as u8).collect();
     let mut t = Tape::new(&bytes);
@@ -103,13 +109,12 @@ fn fresh_process_phase(env: &Env, st: &mut Stats) {
 }
 
 fn fresh_process_phase_with(env: &Env, seed: u64, st: &mut Stats) {
-    let exe = match std::env::current_exe() {
-        Ok(e) => e,
-        Err(_) => {
-            st.harness_errors.push("cannot locate the harness binary for the fresh-process phase".into());
-            return;
-        }
-    };
+    // the running image itself (`current_exe()` names a path, which a rebuild may have replaced or deleted meanwhile)
+    let exe = std::path::PathBuf::from("/proc/self/exe");
+    if !exe.exists() {
+        st.harness_errors.push("cannot locate the harness binary for the fresh-process phase".into());
+        return;
+    }
     let files = seeded_pool(seed);
     let pats = patterns::all();
     let orders: Vec<u64> = (0..env.tier.n(6, 24) as u64).collect();
@@ -122,7 +127,9 @@ fn fresh_process_phase_with(env: &Env, seed: u64, st: &mut Stats) {
                 if !out.status.success() {
                     return None;
                 }
-                serde_json::from_slice::<Value>(&out.stdout).ok()
+                // the verdicts are the last line the child prints (anything solstat itself may print comes before)
+                let text = String::from_utf8_lossy(&out.stdout);
+                serde_json::from_str::<Value>(text.lines().rev().find(|l| !l.trim().is_empty())?).ok()
             })
         }).collect();
         for h in hs {
@@ -312,6 +319,7 @@ fn concurrent_phase(env: &Env, st: &mut Stats) {
     let mut t = Tape::new(&bytes);
     let (files, _) = pool(&mut t);
     let pats = patterns::all();
+    let files = without_panicking_files(files, &pats);
     let base = match baseline(&files, &pats) {
         Ok(b) => b,
         Err(_) => return,
@@ -466,6 +474,7 @@ fn deep_phase(env: &Env, st: &mut Stats) {
     let mut t = Tape::new(&bytes);
     let (files, _) = pool(&mut t);
     let pats = patterns::all();
+    let files = without_panicking_files(files, &pats);
     let base = match baseline(&files, &pats) {
         Ok(b) => b,
         Err(_) => return,
